@@ -5,7 +5,7 @@ From updog Require Import Conc LockPolicy.
 From Gen Require Import LockFacts.
 Local Open Scope list_scope.
 
-Definition funs := restrict funs_C04 gen_funs.
+Definition funs := reachable_funs policy_C04 gen_funs entries_C04.
 Definition skeletons_C04 : list stmt := map gen_entry entries_C04.
 
 Lemma C04_locks : well_locked_all policy_C04 funs skeletons_C04 = true.
